@@ -502,6 +502,17 @@ func genM1(r *rand.Rand, p Profile, id string) Case {
 				}
 			}
 			t.versions = keep
+		case "ctab":
+			ops = append(ops, []string{"ctab", "save"})
+			nv := t.cur + 1
+			if t.cur == 0 && iv > 0 {
+				nv = iv
+			}
+			if !t.has(nv) {
+				t.versions = append(t.versions, nv)
+				t.cur = nv
+			}
+			t.dirty = false
 		case "wsave":
 			ops = append(ops, []string{"wsave"})
 			nv := t.cur + 1
